@@ -1,6 +1,7 @@
 package vfref
 
 import (
+	"crypto/sha256"
 	"encoding/binary"
 	"errors"
 	"fmt"
@@ -159,4 +160,20 @@ func STHSignatureInput(size uint64, timestamp uint64, root Hash) []byte {
 	b = u64(b, timestamp)
 	b = u64(b, size)
 	return append(b, root[:]...)
+}
+
+// DedupKey is the 256-bit deduplication key of an entry: SHA-256 over the
+// TLS-presentation LogEntryType followed by the signed entry
+// (x509: ASN.1Cert; precert: issuer_key_hash, TBSCertificate).
+func DedupKey(cert []byte, isPrecert bool, issuerKeyHash [32]byte) [32]byte {
+	var b []byte
+	if !isPrecert {
+		b = u16(b, 0)
+	} else {
+		b = u16(b, 1)
+		b = append(b, issuerKeyHash[:]...)
+	}
+	b = u24(b, len(cert))
+	b = append(b, cert...)
+	return sha256.Sum256(b)
 }
